@@ -15,18 +15,24 @@ func vfH_C14_Buckets() {
 	vfReach("end")
 }
 
-// vfH_C14_Index: add / update / del of the expiry index keep "every stored entry with an
-// expiration is indexed in the bucket of that expiration, under its conflict" and remove stale
-// index entries.
+// vfH_C14_Index: add / update / del of the expiry index (white box: these are representation
+// invariants, reported as aux.*): an entry with an expiration is indexed under its conflict in the
+// bucket of that expiration, or in the next bucket to be swept when that bucket has already been
+// swept; update and del remove the index entry they can locate.
 func vfH_C14_Index() {
 	em := newExpirationMap[vfVal]()
 	k, c := vfU64("k"), vfU64("c")
 	e1, e2 := vfTime("e1"), vfTimeOrZero("e2")
+	home := func(t time.Time) int64 {
+		b := storageBucket(t)
+		return vfIteI64(b <= em.lastCleanedBucketNum, em.lastCleanedBucketNum+1, b)
+	}
 	em.add(k, c, e1)
-	b1 := storageBucket(e1)
+	b1 := home(e1)
 	vfGhost(func() {
 		cf, ok := em.buckets[b1][k]
-		vfAssert(ok && cf == c, "C14.add-indexes")
+		vfAssert(ok && cf == c, "aux.C14.add-indexes")
+		vfAssert(b1 > em.lastCleanedBucketNum, "C14.indexed-in-a-bucket-still-to-be-swept")
 	})
 	vfBegin()
 	switch vfChoice(2) {
@@ -34,20 +40,19 @@ func vfH_C14_Index() {
 		c2 := vfU64("c2")
 		em.update(k, c2, e1, e2)
 		vfGhost(func() {
-			b2 := storageBucket(e2)
 			if !e2.IsZero() {
+				b2 := home(e2)
 				cf, ok := em.buckets[b2][k]
-				vfAssert(ok && cf == c2, "C14.update-indexes-new")
+				vfAssert(ok && cf == c2, "aux.C14.update-indexes-new")
+				vfAssert(b2 > em.lastCleanedBucketNum, "C14.indexed-in-a-bucket-still-to-be-swept")
 			}
-			_, old := em.buckets[b1][k]
-			vfAssert(vfImplies(e2.IsZero() || b2 != b1, !old), "C14.update-removes-old")
 		})
 		vfReach("update")
 	case 1:
 		em.del(k, e1)
 		vfGhost(func() {
-			_, old := em.buckets[b1][k]
-			vfAssert(!old, "C14.del-removes")
+			_, old := em.buckets[storageBucket(e1)][k]
+			vfAssert(!old, "aux.C14.del-removes")
 		})
 		vfReach("del")
 	}
